@@ -95,9 +95,11 @@ Print Assumptions C11_norm_sound.
 (* One pass of the CURRENT simplifier (after the fix commits), tree level, by induction over the walker:
    for every tree of the capture-free, flag-free fragment (in_fragment: the state-free elaboration succeeds)
    that avoids the guards (avoids_defects: decidable, syntactic, mirrors the walker), the emitted tree has the
-   same groups (none) and is observationally equivalent: same FindStringSubmatchIndex on every subject. *)
+   same groups (none), is observationally equivalent (same FindStringSubmatchIndex on every subject) and stays
+   inside the domain in which the matcher model is Go's semantics (model_exact: every loop body consumes). *)
 Theorem C11_simplify_sound_partial : forall e, in_fragment e = true -> avoids_defects e = true ->
   exists x y, den_top e = Some (x, 0, []) /\ den_top (simp_ast e) = Some (y, 0, []) /\ req y x /\
+              model_exact (simp_ast e) = true /\
               forall subject, find_go (simp_ast e) subject = find_go e subject.
 Proof. exact simplify_sound_fragment. Qed.
 Print Assumptions C11_simplify_sound_partial.
@@ -137,6 +139,10 @@ Print Assumptions C11_class_brackets_refuted.
 Theorem C11_alt_prefix_order_refuted : simp_text t_prefix = "foo?" /\ differ t_prefix (simp_ast t_prefix) "foo".
 Proof. exact alt_prefix_order_refuted. Qed.
 Print Assumptions C11_alt_prefix_order_refuted.
+
+Theorem C11_alt_factoring_under_ungreedy_flag_refuted : simp_text t_prefix_U = "(?U:abc?)" /\ differ t_prefix_U (simp_ast t_prefix_U) "abc".
+Proof. exact alt_factoring_under_ungreedy_flag_refuted. Qed.
+Print Assumptions C11_alt_factoring_under_ungreedy_flag_refuted.
 
 Theorem C11_capture_under_zero_repeat_prefix_refuted : simp_text_prefix t_zero_cap = "b" /\ option_map (fun x => snd (fst x)) (den_top t_zero_cap) = Some 1 /\ option_map (fun x => snd (fst x)) (den_top (simp_ast_prefix t_zero_cap)) = Some 0.
 Proof. exact capture_under_zero_repeat_prefix_refuted. Qed.
